@@ -7,7 +7,7 @@ driver.setup_paths()
 prop = sys.argv[1]; idx = int(sys.argv[2]); tier = sys.argv[3] if len(sys.argv) > 3 else "quick"
 eng = driver.load_engine(prop)
 rs = driver.run_seed(int(os.environ.get("VERIF_SEED", "0")), prop, idx)
-sc = eng.generate(random.Random(rs), tier); sc["seed"] = rs
+sc = eng.generate_indexed(idx, random.Random(rs), tier) if hasattr(eng, "generate_indexed") else eng.generate(random.Random(rs), tier); sc["seed"] = rs
 if os.environ.get("PATCH"):
     sc.update(json.loads(os.environ["PATCH"]))
 print(json.dumps(sc)[:1500])
